@@ -1122,10 +1122,16 @@ func (p *PubSub) handleDeadPeers() {
 		q.Close()
 		delete(p.peers, pid)
 
-		p.clearPeerFromTopicsState(pid)
+		connected := p.host.Network().Connectedness(pid) == network.Connected
+		if !connected {
+			// The topic state is learnt from the peer's inbound stream. If only our
+			// outbound stream died the peer will not announce its subscriptions
+			// again, so keep them; its inbound stream closing clears them.
+			p.clearPeerFromTopicsState(pid)
+		}
 		p.rt.OnClosedOutboundStream(pid)
 
-		if p.host.Network().Connectedness(pid) == network.Connected {
+		if connected {
 			backoffDelay, err := p.deadPeerBackoff.updateAndGet(pid)
 			if err != nil {
 				p.logger.Debug("error updating backoff", "err", err, "peer", pid)
